@@ -349,7 +349,7 @@ func runC09(c *core.Ctx) {
 			masks = append(masks, 1<<i|1<<j)
 		}
 	}
-	nrand := c.Pick(1500, 60000)
+	nrand := c.Pick(1500, 30000)
 	for i := 0; i < nrand; i++ {
 		masks = append(masks, uint32(c.Rng.Int63())&(1<<nparts-1))
 	}
@@ -384,7 +384,7 @@ func runC09(c *core.Ctx) {
 	}
 
 	// ---- generator 2: mutate, re-sign (validly signed but structurally odd) and mutate after signing ----
-	nm := c.Pick(25000, 600000)
+	nm := c.Pick(25000, 300000)
 	fixtures := c09Fixtures()
 	for i := 0; i < nm/c.NShards; i++ {
 		o.Reset()
@@ -909,7 +909,7 @@ func c09Logout(c *core.Ctx, o *so.Oracle, mine func() bool) {
 			call(fmt.Sprintf("logout-degenerate#%d", i), d)
 		}
 	}
-	n := c.Pick(3000, 100000)
+	n := c.Pick(3000, 50000)
 	for i := 0; i < n/c.NShards; i++ {
 		el := c09LogoutResponse(o).Element()
 		var ops []string
@@ -1072,7 +1072,7 @@ func c09IdP(c *core.Ctx, o *so.Oracle, mine func() bool) {
 			serve(fmt.Sprintf("request-degenerate#%d", i), d, i%2 == 0)
 		}
 	}
-	n := c.Pick(6000, 150000)
+	n := c.Pick(6000, 75000)
 	for i := 0; i < n/c.NShards; i++ {
 		el := c09AuthnRequest(o)
 		var ops []string
@@ -1145,7 +1145,7 @@ func c09IdP(c *core.Ctx, o *so.Oracle, mine func() bool) {
 		})
 		c.Observe("hostile_metadata_idpinit_status", fmt.Sprint(rec2.Code))
 	}
-	nh := c.Pick(4000, 100000)
+	nh := c.Pick(4000, 50000)
 	mdXML, _ := xml.Marshal(base)
 	for i := 0; i < nh/c.NShards; i++ {
 		el, err := so.Parse(mdXML)
@@ -1289,7 +1289,7 @@ func c09Meta(c *core.Ctx, mine func() bool) {
 			consume(fmt.Sprintf("md-degenerate#%d", i), d)
 		}
 	}
-	n := c.Pick(8000, 200000)
+	n := c.Pick(8000, 100000)
 	for i := 0; i < n/c.NShards; i++ {
 		s := seeds[c.Rng.Intn(len(seeds))]
 		var raw []byte
